@@ -290,3 +290,12 @@ Theorem C10_cost_decompressLZ4 : forall data rawSize out,
 Proof. exact PG.C10.Cost2.decompressLZ4_output_linear. Qed.
 Print Assumptions C10_cost_decompressPGLZ.
 Print Assumptions C10_cost_decompressLZ4.
+
+(* ---- JSONB: the decoded document has at most len/4 + 1 nodes for EVERY byte string (the stored end offsets must not run
+   backwards, so the children of a container occupy disjoint byte ranges; before the repair bc6d2ff a 388-byte input took
+   4.7 s and 650 bytes days).  The number of decodeJEntry / parseJSONB calls is therefore linear in the input. ---- *)
+Theorem C10_cost_ParseJSONB : same_as PG.Props.C06.C06_nodes_linear.
+Proof. exact PG.Props.C06.C06_nodes_linear. Qed.
+Theorem C10_jsonb_children_disjoint : same_as PG.Props.C06.C06_children_disjoint.
+Proof. exact PG.Props.C06.C06_children_disjoint. Qed.
+Print Assumptions C10_cost_ParseJSONB.
